@@ -19,6 +19,11 @@ type Chooser struct {
 	// branched; later points take the default and Cut reports it.
 	DepthCut int
 
+	// AllowFirstDev, if set, restricts the explored executions to those
+	// whose first deviation is at a position it accepts (used to shard one
+	// big tree over processes; the deviation-free execution is run by all).
+	AllowFirstDev func(pos int) bool
+
 	// statistics
 	Executions int64
 	Nodes      int64 // distinct choice points visited (tree nodes)
@@ -48,6 +53,16 @@ func (c *Chooser) Choose(n int) int {
 	c.Choices = append(c.Choices, v)
 	c.Menus = append(c.Menus, n)
 	return v
+}
+
+// Prefix returns the choices the next execution must replay.
+func (c *Chooser) Prefix() []int { return c.prefix }
+
+// SetTrace records the choice points of an execution that was driven from
+// outside (a schedule plan) instead of through Choose.
+func (c *Chooser) SetTrace(choices, menus []int) {
+	c.Choices = append(c.Choices[:0], choices...)
+	c.Menus = append(c.Menus[:0], menus...)
 }
 
 // Depth is the number of choice points passed so far in this execution.
@@ -96,6 +111,9 @@ func (c *Chooser) Begin() bool {
 			continue
 		}
 		if c.Bound >= 0 && devBefore[i]+1 > c.Bound {
+			continue
+		}
+		if c.AllowFirstDev != nil && devBefore[i] == 0 && c.Choices[i] == 0 && !c.AllowFirstDev(i) {
 			continue
 		}
 		c.prefix = append(c.prefix[:0], c.Choices[:i]...)
